@@ -156,9 +156,11 @@ CLAIMED["C06"] = dict(
               "flags, metadata, versions as solver variables; hash an uninterpreted function) compared with an independent "
               "reading of the exported bytes; parse(export) equality, own verifier verdicts and a corrupted image byte are "
               "decided by z3 QF_BV / QF_UFBV",
-    note="Decided for unsigned containers (SRK set none) and for the flags word of signed ones. NOT decided: container "
-         "signatures, SRK table hash, certificates, key blobs and image decryption (real asymmetric crypto behind the "
-         "cryptography API, no AHAB key stubs in this round).",
+    note="Decided for unsigned containers and for containers signed with an ECDSA P-256 / P-384 SRK table (records carry "
+         "the keys, table hash, signature of the selected key over exactly header + image array + block up to the signature, "
+         "own verifier, modified authenticated bytes). NOT decided: soundness of the signature scheme itself (uninterpreted "
+         "function symbolically, real key concretely), RSA / P-521 tables, certificates, key blobs, image decryption, "
+         "container version 2.",
     ref="DESIGN.md section 3 C06")
 
 CLAIMED["C07"] = dict(
